@@ -1,4 +1,4 @@
-import MlModel.Lemmas.TreeFlavour
+import MlModel.Lemmas.TreeReserved
 /-!
 # C18 — tree views obey get/set laws and never mutate the viewed data
 
@@ -575,6 +575,146 @@ theorem C18_key_flavour_fresh_witness :
     (setPath false false #[.dict [(.idx 1, 1)], .leaf (.int 1)] 0 [.int 1] 1).1[2]? = some (.dict [(.idx 1, 1)]) :=
   ⟨by decide, by decide, by decide, by decide, by decide, rfl, by decide⟩
 
+/-! ## C18_reserved_vs_plain — user data whose keys are SPELLED like reserved keys (work package SC18)
+
+`Key.SELF` / `Key.SKIP` are `Reserved` objects (a `str` subclass: `Reserved('SELF') == 'SELF'`, same hash).  A
+mapping with the ORDINARY str key `'SELF'` or `'SKIP'` — an action vocabulary `{'KEEP': .., 'SKIP': ..}` — is a legal
+tree and that key an ordinary key.  In the model the reserved keys are the constructors `PKey.self` / `PKey.skip`, a
+plain string is `PKey.str s` whatever `s` spells; `Model/TreeKey.lean` writes the test `_is_key` (tree.py:205-206:
+`isinstance(key, type(other_key)) and key == other_key`) out over Python types and `==`, and re-states `__get` /
+`_default_tree` / `_set_by_path` with an explicit `_is_key` call wherever the Python has one (`getK`, `defaultTreeK`,
+`setPathK`, parametrised by the predicate).  The theorems below are stated on THAT model with the shipped predicate
+`isKey`; `C18_reserved_vs_plain_model` says it is the model all other theorems of this file are about.  The seeded
+change C18-m3 (`isinstance(key, str) and key == other_key`) is the same model with `isKeyByValue`. -/
+
+/-- **The shipped `_is_key` accepts exactly the reserved objects** — never a plain string, whatever it spells
+(`'SELF'`, `'SKIP'` included), never an `Index` / int / `Literal`. -/
+theorem C18_reserved_vs_plain_is_key (k : PKey) :
+    (isKey k .self = true ↔ k = .self) ∧ (isKey k .skip = true ↔ k = .skip) ∧
+    (∀ s, k = .str s → isKey k .self = false ∧ isKey k .skip = false) := by
+  refine ⟨isKey_self_iff k, isKey_skip_iff k, ?_⟩
+  rintro s rfl
+  exact ⟨isKey_plain_self rfl, isKey_plain_skip rfl⟩
+
+/-- **With the shipped predicate, the model with explicit `_is_key` calls is the model of `Model/Tree.lean`**:
+`_set_by_path` (copying and in place), `__get`, `_default_tree`, `items()` — every heap, path and value. -/
+theorem C18_reserved_vs_plain_model (strict inPlace : Bool) (h : Heap) (t v : Ref) (p : Path) :
+    setPathK isKey strict inPlace h t p v = setPath strict inPlace h t p v ∧ getK isKey h t p = get h t p ∧
+    getCoreK isKey h t p = getCore h t p ∧ defaultTreeK isKey h p v = defaultTree h p v ∧
+    itemsK isKey h t = items h t :=
+  ⟨setPathK_isKey strict inPlace p h t v, getK_isKey h t p, getCoreK_isKey h p t, defaultTreeK_isKey h p v,
+    itemsK_isKey h t⟩
+
+/-- **Get after set through a plain string key, whatever it spells** (`s = "SELF"`, `s = "SKIP"` included, at any
+depth: `pre` and `post` are arbitrary paths of plain keys, `post` optionally cut short by the reserved `SELF`): the
+path reads the very object set.  (`NoNd`: reading back does not index into an ndarray; discharged for readable paths
+by the next theorem.) -/
+theorem C18_reserved_vs_plain_get_set (strict : Bool) (s : String) {h : Heap} {t v : Ref} {pre post : Path}
+    {h' : Heap} {t' : Ref} (hpre : ∀ k ∈ pre, k.isPlain = true) (hpost : PlainSelf post)
+    (hs : setPathK isKey strict false h t (pre ++ .str s :: post) v = (h', .ok t'))
+    (hnd : NoNd h' t' (pre ++ .str s :: post)) :
+    getK isKey h' t' (pre ++ .str s :: post) = .ok v := by
+  rw [setPathK_isKey] at hs
+  rw [getK_isKey]
+  exact setPath_get_set strict _ h t v h' t' (PlainSelf.through hpre rfl hpost) hs h' (fun _ _ _ => rfl) hnd
+
+/-- … in particular for every such path that could be read before the set (an EXISTING mapping key `'SELF'` /
+`'SKIP'`): the demo of the seeded change, for all heaps. -/
+theorem C18_reserved_vs_plain_get_set_existing (strict : Bool) (s : String) {h : Heap} {t v x : Ref}
+    {pre post : Path} {h' : Heap} {t' : Ref} (hpre : ∀ k ∈ pre, k.isPlain = true) (hpost : PlainSelf post)
+    (hc : Closed h) (ht : t < h.size) (hg : getK isKey h t (pre ++ .str s :: post) = .ok x)
+    (hs : setPathK isKey strict false h t (pre ++ .str s :: post) v = (h', .ok t')) :
+    getK isKey h' t' (pre ++ .str s :: post) = .ok v := by
+  have hs' := hs
+  rw [setPathK_isKey] at hs'
+  rw [getK_isKey] at hg
+  exact C18_reserved_vs_plain_get_set strict s hpre hpost hs
+    (setPath_noNd_of_get strict _ h t v h' t' (· < h.size) (PlainSelf.through hpre rfl hpost) hc.region ht ⟨x, hg⟩
+      hs' h' (fun _ _ _ => rfl))
+
+/-- **Frame**: a copying set through a plain string key (any spelling, any depth) leaves every path that leaves
+the set path reading as before — the siblings of a mapping key `'SELF'` survive a set below it. -/
+theorem C18_reserved_vs_plain_frame (strict : Bool) (s : String) {h : Heap} {t v : Ref} {pre post q : Path}
+    {h' : Heap} {t' : Ref} (hc : Closed h) (ht : t < h.size) (d : Diverge (pre ++ .str s :: post) q)
+    (hs : setPathK isKey strict false h t (pre ++ .str s :: post) v = (h', .ok t')) (x : Ref) :
+    getK isKey h' t' q = .ok x ↔ getK isKey h t q = .ok x := by
+  rw [setPathK_isKey, ← copyAndSet_path] at hs
+  rw [getK_isKey, getK_isKey]
+  exact C18_frame strict hc ht d hs x
+
+/-- **`items()` lists stored keys, never a reserved key**: every element of every listed path is a plain key (a
+mapping key spelled `'SELF'` is listed as the plain string, `PKey.str "SELF"`), and the path reads back its leaf
+through the `__get` with the explicit `_is_key` test. -/
+theorem C18_reserved_vs_plain_items {h : Heap} (hg : GoodDicts h) {root : Ref} {n : Node} (hn : h[root]? = some n)
+    (hc : n.children ≠ []) {kvs : List (Path × Ref)} (hi : itemsK isKey h root = .ok kvs) {p : Path} {x : Ref}
+    (hm : (p, x) ∈ kvs) :
+    (∀ k ∈ p, k.isPlain = true ∧ k ≠ .self ∧ k ≠ .skip) ∧ getK isKey h root p = .ok x := by
+  rw [itemsK_isKey] at hi
+  obtain ⟨hw, hgp⟩ := (C18_items hg hn hc hi).2.2 p x hm
+  refine ⟨fun k hk => ?_, by rw [getK_isKey]; exact hgp⟩
+  have := hw.all_plain hg k hk
+  exact ⟨this, PKey.isPlain_ne_self this, PKey.isPlain_ne_skip this⟩
+
+/-- **The two keys are told apart in both directions** on a dict that has the entry `s ↦ c` (`s = "SELF"` /
+`"SKIP"`): the plain string reads / sets THROUGH the entry; the reserved `SELF` reads the dict itself and a set
+replaces it; the reserved `SKIP` set is the identity. -/
+theorem C18_reserved_vs_plain_distinct {h : Heap} {t c : Ref} {es : List (DKey × Ref)} (s : String)
+    (ht : h[t]? = some (.dict es)) (hd : dictGet es (.str s) = some c) (ks : Path) (strict inPlace : Bool) (v : Ref) :
+    getK isKey h t (.str s :: ks) = getK isKey h c ks ∧ getK isKey h t (.self :: ks) = .ok t ∧
+    setPathK isKey strict inPlace h t (.self :: ks) v = (h, .ok v) ∧
+    setPathK isKey strict inPlace h t (.skip :: ks) v = (h, .ok t) := by
+  simp only [getK_isKey, setPathK_isKey]
+  refine ⟨?_, get_self h t ks, rfl, rfl⟩
+  rw [get_cons ks (Or.inl rfl), index_of_get ht]
+  simp [Node.slotGet, PKey.toDKey, hd]
+
+/-- **The by-value predicate breaks get-after-set on EVERY dict that has a key `'SKIP'`**: the copying set
+"succeeds", returns the tree itself, and the path still reads the old entry `c` — whatever the value `v ≠ c`. -/
+theorem C18_reserved_vs_plain_by_value_breaks_get_set (strict : Bool) {h : Heap} {t c v : Ref}
+    {es : List (DKey × Ref)} (ht : h[t]? = some (.dict es)) (hd : dictGet es (.str "SKIP") = some c) (hne : c ≠ v) :
+    setPathK isKeyByValue strict false h t [.str "SKIP"] v = (h, .ok t) ∧
+    getK isKeyByValue h t [.str "SKIP"] ≠ .ok v := by
+  refine ⟨setPathK_byValue_skip strict false h t [] v, ?_⟩
+  rw [getK_byValue_skip_one ht hd]
+  intro e; cases e; exact hne rfl
+
+/-- **… and the frame condition and the read-back of listed paths on every tree that has a key `'SELF'`**: a set
+through it returns the VALUE as the whole tree (every sibling path is gone), a read through it returns the enclosing
+tree, not the entry. -/
+theorem C18_reserved_vs_plain_by_value_breaks_frame (strict inPlace : Bool) (h : Heap) (t v : Ref) (rest : Path) :
+    setPathK isKeyByValue strict inPlace h t (.str "SELF" :: rest) v = (h, .ok v) ∧
+    getK isKeyByValue h t (.str "SELF" :: rest) = .ok t :=
+  ⟨setPathK_byValue_self strict inPlace h t rest v, getK_byValue_self h t rest⟩
+
+/-- The data of the seeded change's demo, `{'KEEP': 1, 'SKIP': 3, 'SELF': {'w': 5}}` at cell 4 (value `9` at cell 5). -/
+private def hR : Heap :=
+  #[.leaf (.int 1), .leaf (.int 3), .leaf (.int 5), .dict [(.str "w", 2)],
+    .dict [(.str "KEEP", 0), (.str "SKIP", 1), (.str "SELF", 3)], .leaf (.int 9)]
+
+/-- Witness (test, `decide`): on the demo data the shipped predicate obeys the laws and the by-value predicate
+violates each of them — (1) items: the listed path `('SELF','w')` reads back the leaf / the whole tree; (2) get after
+set through `'SKIP'`: the value / the old entry; (3) frame: after a set at `('SELF','w')` the sibling `'KEEP'` still
+reads `1` / the result is the bare value and `'KEEP'` cannot be read; (4) a fresh path through `'SKIP'` on `{}`. -/
+theorem C18_reserved_vs_plain_by_value_witness :
+    itemsK isKey hR 4 = .ok [([.str "KEEP"], 0), ([.str "SKIP"], 1), ([.str "SELF", .str "w"], 2)] ∧
+    itemsK isKeyByValue hR 4 = .ok [([.str "KEEP"], 0), ([.str "SKIP"], 1), ([.str "SELF", .str "w"], 4)] ∧
+    getK isKey (setPathK isKey false false hR 4 [.str "SKIP"] 5).1 6 [.str "SKIP"] = .ok 5 ∧
+    (setPathK isKey false false hR 4 [.str "SKIP"] 5).2 = .ok 6 ∧
+    (setPathK isKeyByValue false false hR 4 [.str "SKIP"] 5).2 = .ok 4 ∧
+    getK isKeyByValue hR 4 [.str "SKIP"] = .ok 1 ∧
+    (setPathK isKey false false hR 4 [.str "SELF", .str "w"] 5).2 = .ok 6 ∧
+    getK isKey (setPathK isKey false false hR 4 [.str "SELF", .str "w"] 5).1 6 [.str "KEEP"] = .ok 0 ∧
+    (setPathK isKeyByValue false false hR 4 [.str "SELF", .str "w"] 5).2 = .ok 5 ∧
+    getK isKeyByValue hR 5 [.str "KEEP"] = .error .key ∧
+    (setPathK isKey false false #[.dict [], .leaf (.int 1)] 0 [.str "SKIP", .str "x"] 1).1[2]? =
+      some (.dict [(.str "SKIP", 4)]) ∧
+    (setPathK isKey false false #[.dict [], .leaf (.int 1)] 0 [.str "SKIP", .str "x"] 1).1[4]? =
+      some (.dict [(.str "x", 1)]) ∧
+    (setPathK isKeyByValue false false #[.dict [], .leaf (.int 1)] 0 [.str "SKIP", .str "x"] 1) =
+      (#[.dict [], .leaf (.int 1)], .ok 0) := by
+  refine ⟨?_, ?_, ?_, ?_, ?_, ?_, ?_, ?_, ?_, ?_, ?_, ?_, ?_⟩ <;> rfl
+
+
 /-! ## non-vacuity: a concrete heap satisfies every hypothesis used above (tests, not theorems) -/
 
 section Examples
@@ -658,5 +798,17 @@ example : Ex h0 3 [.int 2] := .last (n := .list [2, 0]) _ rfl (by simp) (fun es 
 example : [PKey.int 0, .str "a"].map PKey.flav = [PKey.idx 0, .str "a"].map PKey.flav := rfl
 example : Ex hA 3 [.str "a", .int 1, .idx 2, .str "anything"] :=
   .step (n := .dict [(.str "a", 1), (.str "row", 2)]) rfl rfl (.nd _ _ (b := 0) (off := 0) (shape := [2, 3]) rfl)
+
+-- C18_reserved_vs_plain: the hypotheses hold on the demo data (depth 1: `pre = ['SELF']`… and depth 0)
+example : Closed hR := closedB_sound (by decide)
+example : GoodDicts hR := goodDictsB_sound (by decide)
+example : getK isKey hR 4 ([] ++ .str "SELF" :: [.str "w"]) = .ok 2 := rfl
+example : (setPathK isKey false false hR 4 ([] ++ .str "SELF" :: [.str "w"]) 5).2 = .ok 6 := rfl
+example : Diverge ([] ++ PKey.str "SELF" :: [.str "w"]) [.str "KEEP"] :=
+  .here rfl (by intro i h; cases h) (Or.inl rfl) (by intro i h; cases h) (by decide)
+example : Diverge ([PKey.str "SELF"] ++ PKey.str "SKIP" :: []) [.str "SELF", .str "SELF"] :=
+  .next rfl rfl rfl (.here rfl (by intro i h; cases h) (Or.inl rfl) (by intro i h; cases h) (by decide))
+example : hR[4]? = some (.dict [(.str "KEEP", 0), (.str "SKIP", 1), (.str "SELF", 3)]) ∧
+    dictGet [(DKey.str "KEEP", 0), (.str "SKIP", 1), (.str "SELF", 3)] (.str "SKIP") = some 1 ∧ (1 : Nat) ≠ 5 := by decide
 
 end MlModel.C18
